@@ -80,12 +80,13 @@ class ViewData:
 
 class Ten:
     """Dense row-major array of Rat."""
-    __slots__ = ("shape", "data", "view")
+    __slots__ = ("shape", "data", "view", "isbool")
 
     def __init__(self, shape, data):
         self.shape = tuple(int(s) for s in shape)
         self.data = list(data)
         self.view = False
+        self.isbool = False         # a mask produced by a comparison / logical operation: as an index it selects, it does not count
         if len(self.data) != prod(self.shape):
             raise Unsupported("internal: %d elements for shape %s" % (len(self.data), self.shape))
 
@@ -199,6 +200,13 @@ class FStr:
 
 class NeedChoice(Exception):
     """a test that depends on symbolic values was met and no answer is scheduled for it (run_paths re-runs with both answers)"""
+
+
+class Raised(Unsupported):
+    """The analysed path ends in a `raise` statement of the analysed code; .exc is the source of the exception expression."""
+    def __init__(self, msg, exc=""):
+        Unsupported.__init__(self, msg)
+        self.exc = exc
 
 
 class ShapeError(Unsupported):
@@ -316,6 +324,12 @@ class TenSym(PySym):
         return v
 
     def to_ten(self, v):
+        if isinstance(v, bool):
+            r = Ten((), [Rat(Poly.const(int(v)))])
+            r.isbool = True
+            return r
+        if isinstance(v, str):
+            return Ten((), [Rat(Poly.var(repr(v)))])       # a string element: an atom named by its own text
         v = self.lift(v)
         if isinstance(v, Ten):
             return v
@@ -328,7 +342,9 @@ class TenSym(PySym):
             sh = items[0].shape
             if any(i.shape != sh for i in items):
                 raise Unsupported("ragged nested sequence")
-            return Ten((len(items),) + sh, [e for i in items for e in i.data])
+            res = Ten((len(items),) + sh, [e for i in items for e in i.data])
+            res.isbool = all(i.isbool for i in items)
+            return res
         raise Unsupported("array from %s" % type(v).__name__)
 
     def pyval(self, v):
@@ -530,6 +546,10 @@ class TenSym(PySym):
         if isinstance(v, (list, tuple)):
             return [self.concrete(x) for x in v]
         if isinstance(v, Ten):
+            if v.isbool:
+                if v.ndim != 1:
+                    self._unsup("mask of %d dimensions as an index" % v.ndim)
+                return [k for k, x in enumerate(v.data) if self.concrete(x) != 0]
             return [self.concrete(x) for x in v.data] if v.ndim == 1 else self._unsup("index array of %d dimensions" % v.ndim)
         return self.concrete(v)
 
@@ -619,7 +639,10 @@ class TenSym(PySym):
             if isinstance(base, Ten):
                 return self.getitem(base, self.key(n.slice))
             if isinstance(base, dict):
-                return base[self.ex(n.slice)]
+                k_ = self.pyval(self.ex(n.slice))
+                if k_ not in base:
+                    raise Raised("the analysed path raises: KeyError(%r)" % (k_,), "KeyError(%r)" % (k_,))
+                return base[k_]
             if isinstance(base, Obj) and callable(base.__dict__.get("_getitem")):
                 return base._getitem(base, self.key(n.slice))
             if isinstance(base, Obj) and "__getitem__" in (base.__dict__.get("_methods") or {}):
@@ -653,6 +676,15 @@ class TenSym(PySym):
             return self.ex(n.body) if self.truth(self.ex(n.test)) else self.ex(n.orelse)
         if isinstance(n, ast.Lambda):
             return ("<lambda>", n, self)
+        if isinstance(n, ast.Dict):
+            if any(k is None for k in n.keys):
+                raise Unsupported("dict display with ** unpacking")
+            return {self.pyval(self.ex(k)): self.ex(v) for k, v in zip(n.keys, n.values)}
+        if isinstance(n, ast.Set):
+            vals = [self.pyval(self.ex(e)) for e in n.elts]
+            if any(isinstance(v, (Rat, Ten, Obj, list)) for v in vals):
+                raise Unsupported("set of symbolic values")
+            return frozenset(vals)
         raise Unsupported("expression %s" % type(n).__name__)
 
     def compare(self, op, a, b, n=None):
@@ -674,13 +706,15 @@ class TenSym(PySym):
                 if cx is None or cy is None:
                     raise Unsupported("comparison of symbolic values: %s" % (src(n) if n is not None else "?"))
                 out.append(Rat(Poly.const(int(self.compare(op, cx, cy)))))
-            return Ten(sh, out)
-        conc = (int, str, bool, type(None), tuple, list)
+            res = Ten(sh, out)
+            res.isbool = True
+            return res
+        conc = (int, str, bool, type(None), tuple, list, frozenset)
         if isinstance(a, Rat) and a.const_value() is not None:
             a = a.const_value()
         if isinstance(b, Rat) and b.const_value() is not None:
             b = b.const_value()
-        if "<dtype>" in (a, b) and isinstance(op, (ast.Eq, ast.NotEq)):
+        if any(isinstance(x_, str) and x_ == "<dtype>" for x_ in (a, b)) and isinstance(op, (ast.Eq, ast.NotEq)):
             return isinstance(op, ast.NotEq)      # a cast follows; casts do not change exact values
         if isinstance(a, conc + (Fraction,)) and isinstance(b, conc + (Fraction,)):
             if isinstance(op, ast.Eq):
@@ -702,7 +736,7 @@ class TenSym(PySym):
         raise Unsupported("comparison of symbolic values: %s" % (src(n) if n is not None else "?"))
 
     def truth(self, v):
-        if v is None or isinstance(v, (bool, int, str, tuple, list)):
+        if v is None or isinstance(v, (bool, int, str, tuple, list, dict, frozenset)):
             return bool(v)
         if isinstance(v, Obj):
             return True
@@ -794,6 +828,8 @@ class TenSym(PySym):
                 recv = self.to_ten(recv)
             if isinstance(recv, (Ten, Rat)):
                 t = self.to_ten(recv)
+                if m == "astype" and isinstance(recv, Ten) and recv.isbool and n.args and "bool" not in src(n.args[0]):
+                    return Ten(recv.shape, recv.data)       # 0 / 1 numbers, no longer a mask
                 if m in ("astype", "copy", "view", "squeeze") and m != "squeeze":
                     return recv if m != "copy" or not isinstance(recv, Ten) else Ten(recv.shape, recv.data)
                 if m in ("sum", "mean"):
@@ -855,9 +891,34 @@ class TenSym(PySym):
                     return hits[0]
                 del recv[hits[0]]
                 return None
+            if isinstance(recv, dict) and m == "update":
+                other = self.ex(n.args[0]) if n.args else {}
+                if not isinstance(other, dict):
+                    raise Unsupported("dict.update with %s" % type(other).__name__)
+                recv.update(other)
+                for k in n.keywords:
+                    recv[k.arg] = self.ex(k.value)
+                return None
+            if isinstance(recv, dict) and m in ("items", "keys", "values", "get", "copy"):
+                if m == "items":
+                    return [(k, v) for k, v in recv.items()]
+                if m == "keys":
+                    return list(recv.keys())
+                if m == "values":
+                    return list(recv.values())
+                if m == "copy":
+                    return dict(recv)
+                args_ = [self.ex(a) for a in n.args]
+                return recv.get(self.pyval(args_[0]), args_[1] if len(args_) > 1 else None)
             if isinstance(recv, str) and m in ("lower", "upper"):
                 return getattr(recv, m)()
             raise Unsupported("method call %s" % src(n)[:50])
+        # ---- local functions and lambdas held in variables
+        if isinstance(n.func, ast.Name) and n.func.id in self.env and isinstance(self.env[n.func.id], tuple) and self.env[n.func.id][:1] in (("<closure>",), ("<lambda>",)):
+            f = self.env[n.func.id]
+            if f[0] == "<lambda>":
+                return self.apply_lambda(f, [self.ex(a) for a in n.args])
+            return self.apply_closure(f, n)
         # ---- summarised / inlined package functions
         if cn in self.models:
             return self.models[cn](self, n)
@@ -868,7 +929,11 @@ class TenSym(PySym):
             v = A(0)
             if isinstance(v, Ten) and cn == "np.array" and self.kw(n, "copy", None, True) is not False:
                 return Ten(v.shape, v.data)         # np.array copies unless told not to
-            return self.to_ten(v) if isinstance(v, (list, tuple)) else v
+            res = self.to_ten(v) if isinstance(v, (list, tuple)) else v
+            dt = n.args[1] if len(n.args) > 1 else next((k.value for k in n.keywords if k.arg == "dtype"), None)
+            if isinstance(res, Ten) and res.isbool and dt is not None and "bool" not in src(dt):
+                res = Ten(res.shape, res.data)      # an explicit numeric dtype: 0 / 1 numbers, not a mask
+            return res
         if cn in ("np.expand_dims",):
             t = self.to_ten(A(0))
             ax = self.concrete(self.kw(n, "axis", 1))
@@ -910,6 +975,19 @@ class TenSym(PySym):
             if not isinstance(spec, str):
                 raise Unsupported("einsum with computed subscripts")
             return self.unwrap(einsum(spec, [self.to_ten(self.ex(a)) for a in n.args[1:]]))
+        if cn in ("np.arange",):
+            args_ = [self.concrete(self.ex(a)) for a in n.args]
+            return Ten((len(range(*args_)),), [Rat(Poly.const(i)) for i in range(*args_)])
+        if cn in ("np.full",):
+            shp = self.shape_arg(self.kw(n, "shape", 0))
+            return Ten.full(shp, self.lift(self.kw(n, "fill_value", 1)))
+        if cn in ("np.int64", "np.int32", "np.float32", "np.float64", "float", "bool") and len(n.args) == 1:
+            v_ = A(0)
+            if cn == "bool":
+                if isinstance(v_, (dict, list, tuple, str, frozenset)):
+                    return bool(v_)
+                return self.truth(v_)
+            return v_
         if cn in ("np.eye", "np.identity"):
             k = self.concrete(A(0))
             return Ten((k, k), [Rat(Poly.const(1 if i == j else 0)) for i in range(k) for j in range(k)])
@@ -1019,6 +1097,31 @@ class TenSym(PySym):
                             out.append(i.at(list(multi) + [k]))
                 return Ten((sh[0], sh[1], sum(i.shape[2] for i in items)), out)
             raise Unsupported("call %s" % cn)
+        if cn in ("np.logical_not", "np.logical_and", "np.logical_or", "np.invert"):
+            ts_ = [self.to_ten(self.ex(a)) for a in n.args]
+            cs = [[self.concrete(x) != 0 for x in t_.data] for t_ in ts_]
+            if cn in ("np.logical_not", "np.invert"):
+                res = Ten(ts_[0].shape, [Rat(Poly.const(int(not c))) for c in cs[0]])
+            else:
+                sh = bshape(ts_[0].shape, ts_[1].shape)
+                a_, b_ = bcast(ts_[0], sh), bcast(ts_[1], sh)
+                f_ = (lambda x, y: x and y) if cn == "np.logical_and" else (lambda x, y: x or y)
+                res = Ten(sh, [Rat(Poly.const(int(f_(self.concrete(x) != 0, self.concrete(y) != 0)))) for x, y in zip(a_.data, b_.data)])
+            res.isbool = True
+            return res if res.shape != () else bool(self.concrete(res.data[0]))
+        if cn in ("np.tile",):
+            t = self.to_ten(A(0))
+            reps = A(1)
+            reps = [self.concrete(x) for x in reps] if isinstance(reps, (list, tuple)) else [self.concrete(reps)]
+            if len(reps) < t.ndim:
+                reps = [1] * (t.ndim - len(reps)) + reps
+            if len(reps) > t.ndim:
+                t = t.reshape([1] * (len(reps) - t.ndim) + list(t.shape))
+            for ax, r_ in enumerate(reps):
+                idx = list(range(t.shape[ax])) * r_
+                t = self.getitem(t, tuple([slice(None)] * ax + [idx]))
+                t.view = False
+            return t
         if cn in ("np.repeat",):
             t = self.to_ten(A(0))
             reps = self.concrete(A(1))
@@ -1121,6 +1224,11 @@ class TenSym(PySym):
             if cn == "set":
                 return sorted(set(vals))
             return min(vals) if cn == "min" else max(vals)
+        if cn == "frozenset":
+            vals = [self.pyval(x) for x in (self.iterate(A(0)) if n.args else [])]
+            if any(isinstance(v, (Rat, Ten, Obj, list)) for v in vals):
+                raise Unsupported("frozenset of symbolic values")
+            return frozenset(vals)
         if cn in ("any", "all"):
             vals = [self.truth(x) for x in self.iterate(A(0))]
             return any(vals) if cn == "any" else all(vals)
@@ -1132,6 +1240,16 @@ class TenSym(PySym):
             cs = [x.const_value() for x in t.data]
             if any(c is None for c in cs):
                 raise Unsupported("%s of symbolic values" % cn)
+            axis = self.kw(n, "axis", 1, None)
+            if axis is not None:
+                axis = self.concrete(axis) % t.ndim
+                f_ = all if cn == "np.all" else any
+                moved = t.transpose([k for k in range(t.ndim) if k != axis] + [axis])
+                L_ = t.shape[axis]
+                vals = [x.const_value() != 0 for x in moved.data]
+                res = Ten(moved.shape[:-1], [Rat(Poly.const(int(f_(vals[k * L_:(k + 1) * L_])))) for k in range(prod(moved.shape[:-1]))])
+                res.isbool = True
+                return res
             return all(c != 0 for c in cs) if cn == "np.all" else any(c != 0 for c in cs)
         if cn in ("sum",):
             tot = Rat(Poly.const(0))
@@ -1170,6 +1288,32 @@ class TenSym(PySym):
         for p_, a in zip(node.args.args, args):
             sub.env[p_.arg] = a
         return sub.ex(node.body)
+
+    def apply_closure(self, clo, call):
+        _, fn, ev = clo
+        if self.depth > 8:
+            raise Unsupported("local function calls nested too deep at %s" % fn.name)
+        a = fn.args
+        names = [p.arg for p in a.posonlyargs + a.args]
+        defaults = dict(zip(names[len(names) - len(a.defaults):], a.defaults))
+        env = {}
+        for i, x in enumerate(call.args):
+            if isinstance(x, ast.Starred) or i >= len(names):
+                raise Unsupported("call of local function %s with starred / surplus arguments" % fn.name)
+            env[names[i]] = self.ex(x)
+        for k in call.keywords:
+            if k.arg is None:
+                raise Unsupported("call of local function %s with **kwargs" % fn.name)
+            env[k.arg] = self.ex(k.value)
+        sub = TenSym(dict(ev.env, **env), ev.positive, ev.funcs, parent=self)
+        for nme, d in defaults.items():
+            if nme not in env:
+                sub.env[nme] = ev.ex(d)
+        missing = [x for x in names if x not in sub.env]
+        if missing:
+            raise Unsupported("call of %s without %s" % (fn.name, missing))
+        sub.run(fn.body)
+        return sub.returned
 
     def iterate(self, v):
         if isinstance(v, Ten):
@@ -1243,6 +1387,9 @@ class TenSym(PySym):
             if isinstance(base, list):
                 base[self.concrete(self.ex(target.slice))] = v
                 return
+            if isinstance(base, dict):
+                base[self.pyval(self.ex(target.slice))] = v
+                return
             if not isinstance(base, Ten):
                 raise Unsupported("store into %s" % type(base).__name__)
             try:
@@ -1313,12 +1460,13 @@ class TenSym(PySym):
         elif isinstance(s, ast.Expr):
             if isinstance(s.value, ast.Constant):
                 return
-            if isinstance(s.value, ast.Call) and (call_name(s.value) or "") in self.models:
+            if isinstance(s.value, ast.Call) and ((call_name(s.value) or "") in self.models or (call_name(s.value) or "") in self.funcs or
+                                                  (isinstance(s.value.func, ast.Name) and isinstance(self.env.get(s.value.func.id), tuple) and self.env[s.value.func.id][:1] == ("<closure>",))):
                 self.ex(s.value)
                 return
             if isinstance(s.value, ast.Call) and (call_name(s.value) or "").split(".")[-1] in ("warn", "write", "print"):
                 return
-            if isinstance(s.value, ast.Call) and isinstance(s.value.func, ast.Attribute) and s.value.func.attr in ("append", "extend", "insert", "remove", "pop"):
+            if isinstance(s.value, ast.Call) and isinstance(s.value.func, ast.Attribute) and s.value.func.attr in ("append", "extend", "insert", "remove", "pop", "update"):
                 self.ex(s.value)
                 return
             if isinstance(s.value, ast.Call) and isinstance(s.value.func, ast.Attribute) and s.value.func.attr == "sort":
@@ -1397,8 +1545,11 @@ class TenSym(PySym):
         elif isinstance(s, (ast.Pass, ast.Assert)):
             return
         elif isinstance(s, ast.Raise):
-            raise Unsupported("the analysed path raises: %s" % src(s)[:60])
+            raise Raised("the analysed path raises: %s" % src(s)[:60], src(s.exc) if s.exc is not None else "")
         else:
+            if isinstance(s, ast.FunctionDef):
+                self.env[s.name] = ("<closure>", s, self)       # a local function: sees the variables of the enclosing call
+                return
             raise Unsupported("statement %s" % type(s).__name__)
 
 
